@@ -203,6 +203,8 @@ def gen_case(rnd):
                 ins = []
                 for k in range(rnd.choice([1, 1, 2])):
                     pos = rnd.sample(ids, rnd.choice([1, min(2, len(ids))]))
+                    if rnd.random() < 0.2:
+                        pos = list(ids)  # a subtotal spanning the whole dimension (its vector is the margin)
                     one = {"function": "subtotal", "name": "s%d" % k, "anchor": rnd.choice(["top", "bottom"] + ids), "args": pos, "id": k + 1}
                     if rnd.random() < 0.3:
                         one = {"function": "subtotal", "name": "d%d" % k, "anchor": rnd.choice(["top", "bottom"] + ids),
@@ -235,7 +237,7 @@ class EndToEnd(EnumContract):
     bound = "2-D and 3-D responses over CAT / CAT_DATE / MR dimensions, <= 4 categories (missing ones anywhere) or <= 3 items, <= 25 respondents with fractional weights, random subtotals / differences / hide / prune / explicit order; seeded sample"
     clauses = (
         "counts", "unweighted-counts", "row-bases", "column-bases", "table-bases", "proportions",
-        "margins", "pruning", "column-index", "zscores", "std-err", "population", "partition-restriction", "transposition",
+        "margins", "pruning", "payload-order-visibility", "column-index", "zscores", "std-err", "population", "partition-restriction", "transposition",
         "transform-invariance", "subtotal-merge", "shape-and-labels",
     )
 
@@ -355,6 +357,12 @@ class EndToEnd(EnumContract):
                     z_exp = (cnt - exp_c) / np.sqrt(var)
                 got_z = np.asarray(p.zscores, dtype=float)
                 got_p = np.asarray(p.pvals, dtype=float)
+                # the stacked form carries the same two arrays (p-values first)
+                stacked = np.asarray(p.residual_test_stats, dtype=float)
+                if stacked.shape != (2,) + got_z.shape or not (
+                    np.array_equal(stacked[0], got_p, equal_nan=True) and np.array_equal(stacked[1], got_z, equal_nan=True)
+                ):
+                    bad.add("zscores")
                 if min(cnt.shape) < 2 or np.linalg.matrix_rank(cnt) < 2:
                     if not (np.all(np.isnan(got_z)) and np.all(np.isnan(got_p))):
                         bad.add("zscores")
@@ -564,6 +572,9 @@ class EndToEnd(EnumContract):
         ro, co = [int(o) for o in pt.row_order()], [int(o) for o in pt.column_order()]
         if {o for o in ro if o >= 0} != exp_r or {o for o in co if o >= 0} != exp_c:
             bad.add("pruning")
+        # the payload-order view of the rows shows the same base rows (in payload order)
+        if [int(x) for x in pt.payload_order if not isinstance(x, str)] != sorted(exp_r):
+            bad.add("payload-order-visibility")
 
         def n_alive(d, t):
             if d["kind"] == "MR":
@@ -970,7 +981,7 @@ class StrandEndToEnd(EnumContract):
              "categories (missing ones anywhere) or <= 3 items, <= 25 respondents with fractional weights, up to 3 random "
              "subtotals / differences (multi-term, stale, overlapping), hide / prune / explicit order; seeded sample")
     clauses = ("strand-counts", "strand-bases", "strand-proportions", "strand-stderr", "strand-population",
-               "strand-subtotals", "strand-visibility", "strand-labels", "strand-ranges", "strand-exception", "ca-stack",
+               "strand-subtotals", "strand-visibility", "strand-payload-order-visibility", "strand-labels", "strand-ranges", "strand-exception", "ca-stack",
                "ca-slice", "strand-min-base-mask", "strand-valid-counts", "strand-share-sum")
 
     def cases(self, cfg, seed, thorough):
@@ -1138,6 +1149,8 @@ class StrandEndToEnd(EnumContract):
         if {o for o in order if o >= 0} != exp_vis or {o for o in order if o < 0} != set(range(-S, 0)):
             bad.add("strand-visibility")
             return bad
+        if [int(x) for x in p.payload_order if not isinstance(x, str)] != sorted(exp_vis):
+            bad.add("strand-payload-order-visibility")
 
         def vec(base, sub):
             return [base[o] if o >= 0 else sub[o + S] for o in order]
@@ -1936,6 +1949,162 @@ class OverlapPairwiseEndToEnd(EnumContract):
 
 
 REGISTRY.append(OverlapPairwiseEndToEnd())
+
+
+def gen_means_pairwise_case(rnd):
+    dims = [gen_dim(rnd, "CAT", "a"), gen_dim(rnd, "CAT", "b")]
+    for d in dims:
+        d.pop("doc_order", None)
+    rs = gen_respondents(rnd, dims, rnd.choice([10, 20, 40]), False)
+    for r in rs:
+        r["y"] = float(rnd.choice([0, 1, 2, 3, 5, 8, 2.5, -1]))
+    ids = [c["id"] for c in dims[1]["cats"]]
+    t = {}
+    if rnd.random() < 0.3:
+        t["insertions"] = [{"function": "subtotal", "name": "s", "anchor": rnd.choice(["top", "bottom"] + ids),
+                            "args": rnd.sample(ids, rnd.choice([1, min(2, len(ids))])), "id": 1}]
+    if rnd.random() < 0.3:
+        t["elements"] = {str(rnd.choice(ids)): {"hide": True}}
+    if rnd.random() < 0.4:
+        t["order"] = {"type": "explicit", "element_ids": rnd.sample(ids, len(ids))}
+    tr = {"columns_dimension": t} if t else {}
+    alpha = rnd.choice([None, 0.05, [0.3, 0.05], [0.1, 0.45], 0.6])
+    pw = {}
+    if alpha is not None:
+        pw["alpha"] = alpha
+    r = rnd.random()
+    if r < 0.4:
+        pw["only_larger"] = False
+    if pw:
+        tr["pairwise_indices"] = pw
+    return dict(dims=dims, rs=rs, weighted=False, transforms=tr)
+
+
+def means_response(dims, rs):
+    """CAT x CAT response carrying the mean and the (sample) standard deviation of a numeric
+    variable per cell; a cell without respondents has no mean, with fewer than two no deviation"""
+    resp = tabulate(dims, rs, False)
+    nr, nc = len(dims[0]["cats"]), len(dims[1]["cats"])
+    cells = {}
+    for r in rs:
+        cells.setdefault((r["a"][0], r["a"][1]), []).append(r["y"])
+    mean, sd = [], []
+    for i in range(nr):
+        for j in range(nc):
+            ys = cells.get((i, j), [])
+            m = math.fsum(ys) / len(ys) if ys else None
+            mean.append(m if ys else {"?": -8})
+            sd.append(math.sqrt(math.fsum((y - m) ** 2 for y in ys) / (len(ys) - 1)) if len(ys) > 1 else {"?": -8})
+    meta = {"references": {"alias": "y", "name": "y"}, "type": {"class": "numeric"}}
+    resp["result"]["measures"]["mean"] = {"data": mean, "n_missing": 0, "metadata": meta}
+    resp["result"]["measures"]["stddev"] = {"data": sd, "n_missing": 0, "metadata": meta}
+    return resp, cells
+
+
+class MeansPairwiseEndToEnd(EnumContract):
+    name = "e2e:pairwise tests on cell means (Welch) and their index sets vs respondents (public API)"
+    props = ("C13", "C05")
+    bound = ("CAT x CAT unweighted responses with mean / stddev measures of a numeric variable tabulated from <= 40 respondents, "
+             "<= 4 categories (missing anywhere), optional column subtotal / hide / explicit order, alpha and only_larger "
+             "variants; seeded sample")
+    clauses = ("means-t", "means-p", "means-subtotal-nan", "means-indices", "means-indices-alt", "means-never-self", "means-exception")
+
+    def cases(self, cfg, seed, thorough):
+        rnd = random.Random(9950 + seed)
+        for _ in range(1500 if thorough else 200):
+            yield gen_means_pairwise_case(rnd)
+
+    def check_case(self, case, cfg):
+        import numpy as np
+        import warnings
+        from scipy.stats import t as tdist
+        from cr.cube.cube import Cube
+
+        warnings.simplefilter("ignore")
+        dims, rs, tr = case["dims"], case["rs"], case["transforms"]
+        rd, cd = dims
+        R, C = valid_elems(rd), valid_elems(cd)
+        if not R or not C:
+            return []
+        bad = set()
+        try:
+            resp, cells = means_response(dims, rs)
+            p = Cube(resp, transforms=copy.deepcopy(tr) or None, population=1000).partitions[0]
+            co = [int(i) for i in p.column_order()]
+            ro = [int(i) for i in p.row_order()]
+
+            def stats(i, j):
+                ys = cells.get((R[i], C[j]), [])
+                n = len(ys)
+                m = math.fsum(ys) / n if n else float("nan")
+                v = math.fsum((y - m) ** 2 for y in ys) / (n - 1) if n > 1 else float("nan")
+                return m, v, float(n)
+
+            def tp(i, a, b):
+                """compared column b against selected column a in base row i"""
+                if a < 0 or b < 0 or i < 0:
+                    return float("nan"), float("nan")
+                (ma, va, na), (mb, vb, nb) = stats(i, a), stats(i, b)
+                with np.errstate(all="ignore"):
+                    se2 = np.float64(vb) / nb + np.float64(va) / na
+                    t = (np.float64(mb) - ma) / np.sqrt(se2)
+                    df = se2 ** 2 / ((np.float64(vb) / nb) ** 2 / (nb - 1) + (np.float64(va) / na) ** 2 / (na - 1))
+                    pv = 2 * (1 - tdist.cdf(abs(t), df))
+                return float(t), float(pv)
+
+            alpha_cfg = (tr.get("pairwise_indices") or {}).get("alpha")
+            if not alpha_cfg:
+                a1, a2 = 0.05, None
+            elif isinstance(alpha_cfg, float):
+                a1, a2 = alpha_cfg, None
+            else:
+                al = sorted(alpha_cfg[:2])
+                a1, a2 = al[0], (al[1] if len(al) > 1 else None)
+            only_larger = (tr.get("pairwise_indices") or {}).get("only_larger", True) is not False
+            idx, idx_alt = p.pairwise_means_indices, p.pairwise_means_indices_alt
+            if (a2 is None) != (idx_alt is None):
+                bad.add("means-indices-alt")
+            for c, a in enumerate(co):
+                gt = np.asarray(p.pairwise_significance_means_t_stats(c), dtype=float)
+                gp = np.asarray(p.pairwise_significance_means_p_vals(c), dtype=float)
+                for rr, row in enumerate(ro):
+                    exp1, exp2, skip = [], [], False
+                    for kpos, b in enumerate(co):
+                        et, ep = tp(row, a, b)
+                        if a < 0 or b < 0:
+                            if not (gt[rr, kpos] != gt[rr, kpos] and gp[rr, kpos] != gp[rr, kpos]):
+                                bad.add("means-subtotal-nan")
+                            continue
+                        if not close([gt[rr, kpos]], [et], 1e-6):
+                            bad.add("means-t")
+                        if not close([gp[rr, kpos]], [ep], 1e-6):
+                            bad.add("means-p")
+                        if b == a:
+                            continue
+                        for al in (a1, a2):
+                            if al is not None and ep == ep and abs(ep - al) < 1e-7:
+                                skip = True
+                        if ep < a1 and (not only_larger or et < 0):
+                            exp1.append(kpos)
+                        if a2 is not None and ep < a2 and (not only_larger or et < 0):
+                            exp2.append(kpos)
+                    got = tuple(int(x) for x in idx[rr][c])
+                    if c in got:
+                        bad.add("means-never-self")
+                    if not skip and tuple(k_ for k_ in got if k_ != c) != tuple(exp1):
+                        bad.add("means-indices")
+                    if idx_alt is not None and a2 is not None:
+                        got2 = tuple(int(x) for x in idx_alt[rr][c])
+                        if c in got2:
+                            bad.add("means-never-self")
+                        if not skip and tuple(k_ for k_ in got2 if k_ != c) != tuple(exp2):
+                            bad.add("means-indices-alt")
+        except Exception as e:
+            bad.add("means-exception:%s" % type(e).__name__)
+        return sorted(bad)
+
+
+REGISTRY.append(MeansPairwiseEndToEnd())
 
 
 def gen_mr_overlap_case(rnd):
